@@ -71,6 +71,40 @@ NEEDS = {
  "C16-D": "containing_modules([]) followed by layer(...): the empty list must keep the layer open",
  "C17-C": "module_path strictly below root_path: ancestors that the parser did not report get no label / cannot be aliased",
  "C17-D": "two visualize calls on one architecture with the same aliased modules but different alias texts (label cache keyed by module names)",
+ "C01-E": "edge requirement whose importee side is are_sub_modules_of(P) and ONE importer that imports both the package P itself and a real sub module of P (break instead of continue in the sorted successor loop)",
+ "C01-F": "graph with a node X.__init__ (scanned __init__.py not excluded), subject are_sub_modules_of(X), import-direction 'something else' question, X.__init__ importing outside X",
+ "C02-E": "a scanned directory WITHOUT __init__.py that is the name n of 'from P import n'",
+ "C02-F": "root_path == module_path and a top-level internal module whose name equals the first component of an absolute import of an external module (proj/logging.py + import logging)",
+ "C03-E": "import-direction except/should_only rule with >= 2 subjects that are also among the exceptions and import each other (caller's object set emptied by the search)",
+ "C03-F": "a layer listing a package AND one of its sub modules (or the sub module in another layer), plus a sibling sub module sorting after it that takes part in an import (layer lookup stops at the first non-parent)",
+ "C04-E": "module_path strictly below root_path + 'from <package> import <sub module>' with the package spelled relative to module_path's parent",
+ "C04-F": "a symbolically linked .py file or directory inside the scanned tree (module named after the resolved path)",
+ "C05-E": "subject layer defined by a regex, should_not access_any_layer / be_accessed_by_any_layer, offending import to/from a module in no layer",
+ "C05-F": "both ends of an import share the parent package but belong to different layers / no layer (layers listing single files next to their siblings)",
+ "C06-E": "a .puml file with the start tag but without the end tag",
+ "C06-F": "an undeclared component that is never a dependor, written left of a left arrow or without brackets",
+ "C07-E": "with_base_module(p) + an isolated (arrow-less) component taking part in an undrawn import",
+ "C07-F": "default mode + dotted component names + a component with arrows importing a package lying above one of its drawn targets",
+ "C08-E": "an excluded directory + a remaining module importing a name at least one level below that directory",
+ "C08-F": "regex_exclusions with >= 2 patterns, one carrying a global inline flag ((?i), (?s)) or a back-reference (patterns joined into one alternation)",
+ "C09-E": "level_limit + externals included + an external module with more name parts than the limit + 1 (import xml.etree.ElementTree, limit 1)",
+ "C09-F": "level_limit + an import whose importee is an ancestor package of the importer (zip() stops at the shorter name)",
+ "C10-E": "externals included + an external exclusion pattern matching only a middle-level package (xml.dom for xml.dom.minidom)",
+ "C10-F": "externals included + two sibling sub modules of one external package (or a package and its direct child) imported separately",
+ "C11-E": "have_name_containing with a partial name containing a dot + a module whose name differs exactly at that dot (core.db / core_db)",
+ "C11-F": "import-direction 'something else' rule with >= 2 subjects one of which is also an object, another subject importing it",
+ "C12-E": "be-imported-by except / 'anything' rule; subject contains a module imported from inside the subject AND by an outside module sorting after the internal importer",
+ "C12-F": "a module inside a module named in the rule imports its own (grand-)parent package + an except-form rule (import edge to an ancestor taken for a hierarchy edge)",
+ "C13-E": "import-direction should/should_not ... except rule whose absent object name is dotted below the subject",
+ "C13-F": "a .puml file with @startuml, some text, and no @enduml",
+ "C14-E": "a directory or file starting with 'py' at least one level below module_path (str.replace('.py','') after dotting)",
+ "C14-F": "externals included + an external module whose dotted name contains the base module's name later on, ending at a component boundary (webapp.client for base app)",
+ "C15-E": "a module file and a package directory of the same name side by side (x.py + x/) and two directory enumeration orders",
+ "C15-F": "a LayeredArchitecture mixing name-defined and regex-defined layers and a rule object listing one layer of each kind, in two orders",
+ "C16-E": "LayerRule: a second subject are_named after the behaviour call and before any access specification",
+ "C16-F": "three layers, the same module given to the first and the third layer, the second layer's module sorting in between",
+ "C17-E": "two modules whose labels coincide (same alias for two modules, or an alias equal to another module's full name)",
+ "C17-F": "aliases with >= 2 entries in which the non-existent module is not the last key (error names the wrong module)",
 }
 only = sys.argv[1:]
 for d in sorted(os.listdir(os.path.join(V, "seeded"))):
